@@ -11,8 +11,16 @@ Go sources transliterated here:
   `EscapeSpecialCharactersInComment` (six consecutive `strings.ReplaceAll`)
 * `sql/rowexec/show_iters.go`   `produceCreateTableStatement` (order of the parts), `convertColumnDefaultToString`
 
-and the two lexical readers a statement parser applies to that text (reference readers for
-exactly the printer's image): a back-quoted identifier and a single-quoted string literal.
+* `sql/types/strings.go`        `StringType.StringWithTableCollation` (the `CHARACTER SET` / `COLLATE` clauses of a
+  char / varchar / text column, printed relative to the table collation) — `collSpecOf` / `collClause`;
+  the table options `DEFAULT CHARSET=… COLLATE=…` print the table collation itself
+
+and the readers a statement parser applies to that text (reference readers for exactly the printer's
+image): a back-quoted identifier, a single-quoted string literal, and the resolution of a column's
+(character set, collation) from its optional clauses and the enclosing default (`resolveColl`:
+COLLATE wins and must belong to the CHARACTER SET when both are given; CHARACTER SET alone means that
+character set's default collation; neither means the table's collation — `lexCollClause` reads the
+clause text back into the optional names).
 -/
 namespace Gms.ShowCreate
 
@@ -82,6 +90,120 @@ def lexStr : Str → Option (Str × Str)
 def rawSafe (s : Str) : Bool := s.all fun c => c != '\'' && c != '\\'
 
 -- ---------------------------------------------------------------------------------------------
+-- Character sets and collations
+
+/-- A collation: its name, the name of its character set, and whether it is that character set's
+default collation. (Go: `sql.CollationID` with `.Name()`, `.CharacterSet().String()`,
+`.CharacterSet().DefaultCollation()`.) -/
+structure Coll where
+  name : Str
+  cs : Str
+  isDflt : Bool
+  deriving DecidableEq, Repr, Inhabited
+
+/-- The collations of the envelope (a regenerated fact compares this table with what the compiled
+code says about each name: `Gms.C22.coll_table_match`). -/
+def collTable : List Coll := [
+  ⟨"utf8mb4_0900_ai_ci".toList, "utf8mb4".toList, true⟩,
+  ⟨"utf8mb4_0900_bin".toList, "utf8mb4".toList, false⟩,
+  ⟨"utf8mb4_general_ci".toList, "utf8mb4".toList, false⟩,
+  ⟨"utf8mb4_bin".toList, "utf8mb4".toList, false⟩,
+  ⟨"utf8mb4_unicode_ci".toList, "utf8mb4".toList, false⟩,
+  ⟨"latin1_swedish_ci".toList, "latin1".toList, true⟩,
+  ⟨"latin1_bin".toList, "latin1".toList, false⟩,
+  ⟨"latin1_general_ci".toList, "latin1".toList, false⟩,
+  ⟨"latin1_general_cs".toList, "latin1".toList, false⟩,
+  ⟨"ascii_general_ci".toList, "ascii".toList, true⟩,
+  ⟨"ascii_bin".toList, "ascii".toList, false⟩,
+  ⟨"utf8mb3_general_ci".toList, "utf8mb3".toList, true⟩,
+  ⟨"utf8mb3_bin".toList, "utf8mb3".toList, false⟩,
+  ⟨"utf8mb3_unicode_ci".toList, "utf8mb3".toList, false⟩,
+  ⟨"utf16_general_ci".toList, "utf16".toList, true⟩,
+  ⟨"utf16_bin".toList, "utf16".toList, false⟩]
+
+/-- The engine's default table collation (`sql.Collation_Default`). -/
+def engineColl : Coll := ⟨"utf8mb4_0900_bin".toList, "utf8mb4".toList, false⟩
+
+def findColl (env : List Coll) (n : Str) : Option Coll := env.find? fun c => c.name = n
+
+def dfltColl (env : List Coll) (cs : Str) : Option Coll := env.find? fun c => c.cs = cs && c.isDflt
+
+/-- What a column definition (or the table options) says about its collation: an optional
+`CHARACTER SET` name and an optional `COLLATE` name. -/
+structure CollSpec where
+  cs : Option Str
+  coll : Option Str
+  deriving DecidableEq, Repr, Inhabited
+
+/-- Reference reader (what CREATE TABLE does with the clauses): COLLATE wins and must belong to the
+CHARACTER SET when both are given (otherwise the statement is rejected: `none`); CHARACTER SET
+alone means the default collation of that character set; neither means the enclosing default
+(`dflt`: the table collation for a column, the engine default for the table options). -/
+def resolveColl (env : List Coll) (dflt : Coll) (s : CollSpec) : Option Coll :=
+  match s.coll, s.cs with
+  | some n, none => findColl env n
+  | some n, some cs => match findColl env n with
+    | some c => if c.cs = cs then some c else none
+    | none => none
+  | none, some cs => dfltColl env cs
+  | none, none => some dflt
+
+/-- Go `StringWithTableCollation`, which clauses are printed for a column of collation `c` in a
+table of collation `t`:
+`if t.CharacterSet() != tableCollation.CharacterSet() { " CHARACTER SET " … }`
+`if t.collation != tableCollation { " COLLATE " … }`. -/
+def collSpecOf (t c : Coll) : CollSpec :=
+  { cs := if c.cs ≠ t.cs then some c.cs else none
+    coll := if c.name ≠ t.name then some c.name else none }
+
+def specText (s : CollSpec) : Str :=
+  (match s.cs with | some n => " CHARACTER SET ".toList ++ n | none => []) ++
+  (match s.coll with | some n => " COLLATE ".toList ++ n | none => [])
+
+/-- The text `StringWithTableCollation` appends to the type. -/
+def collClause (t c : Coll) : Str := specText (collSpecOf t c)
+
+/-- A printer that also drops `COLLATE` when the collation is its character set's default, without
+printing `CHARACTER SET` in exchange (NOT the Go code: kept to state `collate_clause_needed`, the
+reason the Go condition may not be weakened that way). -/
+def collSpecElideDflt (t c : Coll) : CollSpec :=
+  { cs := if c.cs ≠ t.cs then some c.cs else none
+    coll := if c.name ≠ t.name && !c.isDflt then some c.name else none }
+
+/-- What MySQL itself prints: `CHARACTER SET` whenever the column collation is not the table's, and
+`COLLATE` unless it is the character set's default (NOT the Go code: kept to state
+`mysql_clause_round_trip`, the sound way of dropping the default collation). -/
+def collSpecMysql (t c : Coll) : CollSpec :=
+  if c.name = t.name then { cs := none, coll := none }
+  else { cs := some c.cs, coll := if c.isDflt then none else some c.name }
+
+/-- Characters of a character set / collation name. -/
+def isWordChar (c : Char) : Bool := c.isAlphanum || c = '_'
+
+def spanWord : Str → Str × Str
+  | [] => ([], [])
+  | c :: rest => if isWordChar c then let (w, r) := spanWord rest; (c :: w, r) else ([], c :: rest)
+
+/-- `dropPrefix p s` = the rest of `s` after the prefix `p`, if `s` starts with it. -/
+def dropPrefix : Str → Str → Option Str
+  | [], s => some s
+  | _ :: _, [] => none
+  | p :: ps, c :: cs => if p = c then dropPrefix ps cs else none
+
+/-- An optional `<keyword><word>`: the word and the rest, or nothing and the text as it was. -/
+def lexKw (kw s : Str) : Option Str × Str :=
+  match dropPrefix kw s with
+  | some r => (some (spanWord r).1, (spanWord r).2)
+  | none => (none, s)
+
+/-- Reference reader of the clause text: an optional ` CHARACTER SET <word>` then an optional
+` COLLATE <word>`; hands over what follows. -/
+def lexCollClause (s : Str) : CollSpec × Str :=
+  let a := lexKw " CHARACTER SET ".toList s
+  let b := lexKw " COLLATE ".toList a.2
+  ({ cs := a.1, coll := b.1 }, b.2)
+
+-- ---------------------------------------------------------------------------------------------
 -- The schema and its printer
 
 /-- Column types of the envelope (their texts are regenerated facts: `Type.String()`). -/
@@ -123,6 +245,8 @@ structure Col where
   autoInc : Bool
   dflt : Option Dflt
   comment : Str
+  /-- the column's collation (char / varchar / text columns; `none` otherwise) -/
+  coll : Option Coll := none
   deriving DecidableEq, Repr, Inhabited
 
 structure Key where
@@ -138,6 +262,8 @@ structure Table where
   pk : List Str
   keys : List Key
   comment : Str
+  /-- the table's collation -/
+  coll : Coll := engineColl
   deriving DecidableEq, Repr, Inhabited
 
 def joinWith (sep : Str) : List Str → Str
@@ -154,9 +280,11 @@ def dfltText : Dflt → Str
   | .str s => strLit s
   | .null => "NULL".toList
 
-/-- Go `GenerateCreateTableColumnDefinition`. -/
-def showCol (c : Col) : Str :=
+/-- Go `GenerateCreateTableColumnDefinition`; the type text of a char / varchar / text column is
+`StringWithTableCollation(tableCollation)`. -/
+def showCol (tc : Coll) (c : Col) : Str :=
   "  ".toList ++ quoteIdent c.name ++ [' '] ++ tyText c.ty ++
+    (match c.coll with | some cc => if c.ty.isText then collClause tc cc else [] | none => []) ++
     (if c.notNull then " NOT NULL".toList else []) ++
     (if c.autoInc then " AUTO_INCREMENT".toList else []) ++
     (match c.dflt with | some d => " DEFAULT ".toList ++ dfltText d | none => []) ++
@@ -197,9 +325,9 @@ def sortKeys : List Key → List Key
 
 /-- Go `produceCreateTableStatement` + `GenerateCreateTableStatement`, over a key printer. -/
 def showTableWith (key : Key → Str) (t : Table) : Str :=
-  let parts := t.cols.map showCol ++ (if t.pk.isEmpty then [] else [showPk t.pk]) ++ (sortKeys t.keys).map key
+  let parts := t.cols.map (showCol t.coll) ++ (if t.pk.isEmpty then [] else [showPk t.pk]) ++ (sortKeys t.keys).map key
   "CREATE TABLE ".toList ++ quoteIdent t.name ++ " (\n".toList ++ joinWith [',', '\n'] parts ++
-    "\n) ENGINE=InnoDB DEFAULT CHARSET=utf8mb4 COLLATE=utf8mb4_0900_bin".toList ++
+    "\n) ENGINE=InnoDB DEFAULT CHARSET=".toList ++ t.coll.cs ++ " COLLATE=".toList ++ t.coll.name ++
     (if t.comment.isEmpty then [] else " COMMENT='".toList ++ escape t.comment ++ ['\''])
 
 /-- The Impl model: the text of SHOW CREATE TABLE (repaired code). -/
